@@ -387,3 +387,20 @@ func Known(sig string) bool {
 	})
 	return knownSigs[sig]
 }
+
+// ReplayTarget returns the test name recorded in the replay file ($HX_REPLAY), or "".
+func ReplayTarget() string {
+	p := os.Getenv("HX_REPLAY")
+	if p == "" {
+		return ""
+	}
+	b, err := os.ReadFile(p)
+	if err != nil {
+		return ""
+	}
+	var rec failRecord
+	if json.Unmarshal(b, &rec) != nil {
+		return ""
+	}
+	return rec.Test
+}
